@@ -41,6 +41,8 @@ class C09(Prop):
                 a, b = rng.choice(edges)[:2]
                 c["edges"] = c["edges"] + [[a, b] if rng.random() < 0.5 else [b, a]]
             c["dup_input"] = True
+        if i % 5 == 4:
+            c["m0_type"] = "numpy"          # the bound arrives as a NumPy integer (e.g. read off an array of clique sizes)
         return c
 
     def impl(self, case):
@@ -51,7 +53,11 @@ class C09(Prop):
         else:
             for e in case["edges"]:
                 G.add_edge(tuple(e))
-        G.set_max_clique_size(case["m0"])
+        if case.get("m0_type") == "numpy":
+            import numpy as np
+            G.set_max_clique_size(np.int64(case["m0"]))
+        else:
+            G.set_max_clique_size(case["m0"])
         lmc0 = [list(c) for c in G.limited_maximal_cliques()]
         state = {"k": 0, "picks": [], "calls": 0, "ec": None, "cands": []}
         orig = mod.EECC.compute_scores
